@@ -686,6 +686,210 @@ fn judge(
     obs
 }
 
+// ---- schedules: the snapshot is being replaced while a request is handled -------------------
+
+/// Distinct, non-default snapshots (the default is stratum 16, leap unknown, reference id XNON,
+/// zero root delay/dispersion, empty Bloom filter).
+fn published_states() -> Vec<Sync> {
+    let mk = |stratum, leap, refid: u32, d: i8, var_base, var_linear, p| Sync {
+        stratum,
+        leap,
+        refid,
+        root_delay_exp: Some(d),
+        var_base,
+        var_linear,
+        precision_exp: p,
+    };
+    vec![
+        mk(1, 0, u32::from_be_bytes(*b"GPS\0"), -6, 0.0625, 0.0, -20),
+        mk(2, 1, 0x0A00_0001, -1, 0.25, 0.0, -18),
+        mk(15, 2, 0xC0A8_0102, -3, 0.0, 1.0 / 64.0, -22),
+        mk(1, 3, u32::from_be_bytes(*b"PPS\0"), -8, 1.0, 0.0, -24),
+        mk(2, 4, 0x7F00_0001, -2, 0.0, 1.0 / 16.0, -19),
+        mk(15, 0, 0x0808_0808, -5, 0.015625, 0.0, -17),
+    ]
+}
+
+const SCHEDULE_REQUESTS: [&str; 5] = [
+    "v3.m3.p6.l0.g0.a0||m0",
+    "v4.m3.p6.l0.g0.a0|u32|m0",
+    "v5.m3.p6.l0.g0.a0|u32,r16@32,d1|m0",
+    "v4.m3.p6.l0.g0.a0|u32,cC0,Aok()|m0",
+    "v5.m3.p6.l0.g0.a0|u32,cC0,r16@32,d1,Aok()|m0",
+];
+
+/// Schedule S1: the harness holds the WRITE lock of the shared snapshot before the handler
+/// thread starts, keeps it until the handler has returned or has been seen blocked for 50 ms,
+/// optionally stores snapshot `after`, releases. The answer must describe a *published*
+/// snapshot: `before` or (if stored) `after` — never anything else.
+fn run_schedule(
+    findings: &Findings,
+    mut loc: Option<&mut Local>,
+    before: &Sync,
+    after: Option<&Sync>,
+    keys: &KeyEnv,
+    req: &Req,
+) -> String {
+    use std::sync::atomic::{AtomicBool, Ordering};
+    use std::sync::{Arc, RwLock};
+    use std::time::{Duration, Instant};
+    let trace = || {
+        format!(
+            "sched;{};{};k{};{}",
+            before.code(),
+            after.map(|a| a.code()).unwrap_or_else(|| "-".into()),
+            keys.rotated as u8,
+            req.code()
+        )
+    };
+    let info = Arc::new(RwLock::new(super::c16::server_info(before)));
+    let mut server = super::c16::make_server_shared(Cfg::Open, info.clone(), &keys.server);
+    let b = build(req, keys);
+    let done = AtomicBool::new(false);
+    let mut blocked = false;
+    let mut dead_man = false;
+    let mut handled = None;
+    std::thread::scope(|s| {
+        let mut guard = info.write().expect("fresh lock");
+        let h = s.spawn(|| {
+            let r = run_handle(&mut server, client_ip(0), &b.bytes, BIG_BUF);
+            done.store(true, Ordering::SeqCst);
+            r
+        });
+        let t0 = Instant::now();
+        while !done.load(Ordering::SeqCst) && t0.elapsed() < Duration::from_millis(50) {
+            std::thread::sleep(Duration::from_micros(200));
+        }
+        blocked = !done.load(Ordering::SeqCst);
+        if let Some(a) = after {
+            *guard = super::c16::server_info(a);
+        }
+        drop(guard); // released on every path before joining
+        let t1 = Instant::now();
+        while !done.load(Ordering::SeqCst) {
+            if t1.elapsed() > Duration::from_secs(30) {
+                dead_man = true;
+                break;
+            }
+            std::thread::sleep(Duration::from_micros(200));
+        }
+        // the lock is free, so the handler cannot be blocked by the harness any more
+        handled = Some(h.join());
+    });
+    if let Some(l) = loc.as_deref_mut() {
+        l.inc("evaluations");
+        l.inc("schedule_cases");
+        l.inc(if blocked { "schedule_handler_waited_for_the_writer" } else { "schedule_handler_returned_while_write_locked" });
+        if dead_man {
+            l.inc("schedule_dead_man_expired");
+        }
+    }
+    let raw = match handled {
+        Some(Ok(Ok(h))) => match h.out {
+            Out::Respond(a) => a,
+            Out::Ignore => {
+                findings.report("C18:schedule-no-answer", b.bytes.len(), || "canonical request ignored while the snapshot was being replaced".into(), trace);
+                return "ignored".into();
+            }
+        },
+        Some(Ok(Err(p))) => {
+            findings.report("C18:panic", b.bytes.len(), || format!("Server::handle panicked: {p}"), trace);
+            return format!("panic {p}");
+        }
+        _ => return "handler thread lost".into(),
+    };
+    let ans = match walk(&raw) {
+        Ok(a) => a,
+        Err(e) => {
+            findings.report("C18:answer-malformed", b.bytes.len(), || format!("{e}: {}", common::hex(&raw)), trace);
+            return format!("malformed: {e}");
+        }
+    };
+    let has_auth = ans.fields.iter().any(|f| f.ty == T_AUTH);
+    let opened = if has_auth { open_nts(&ans, req.session().s2c().as_ref()) } else { Err("no authenticator".into()) };
+    // candidates: the snapshot at release first, then the one before
+    let mut candidates: Vec<&Sync> = vec![];
+    if let Some(a) = after {
+        candidates.push(a);
+    }
+    candidates.push(before);
+    let mut first: Option<Verdicts> = None;
+    let mut matched = None;
+    for (ci, cand) in candidates.iter().enumerate() {
+        let base = baselines(Cfg::Open, cand, keys);
+        let mut v = Verdicts { v: vec![] };
+        check_header(&mut v, &ans, &b.bytes, false, cand, &base);
+        check_fields(&mut v, &ans, &opened, &b, true);
+        check_reflection(&mut v, &ans, &opened, &b);
+        if v.v.is_empty() {
+            matched = Some(ci);
+            break;
+        }
+        if first.is_none() {
+            first = Some(v);
+        }
+    }
+    if let (None, Some(v)) = (matched, first) {
+        for (class, msg) in v.v {
+            findings.report(
+                class,
+                b.bytes.len(),
+                || {
+                    format!(
+                        "while the snapshot was write-locked{}: {msg} — the answer describes no published snapshot (stratum {}, leap {}, bytes 4..16 {}); request {}; answer = {}",
+                        if after.is_some() { " and replaced" } else { "" },
+                        ans.stratum,
+                        ans.leap,
+                        common::hex(&raw[4..16]),
+                        req.code(),
+                        common::hex(&raw)
+                    )
+                },
+                trace,
+            );
+        }
+    }
+    if let Some(l) = loc.as_deref_mut() {
+        match matched {
+            Some(0) if after.is_some() => l.inc("schedule_answer_from_new_snapshot"),
+            Some(_) => l.inc("schedule_answer_from_old_snapshot"),
+            None => l.inc("schedule_answer_from_unpublished_state"),
+        }
+    }
+    format!(
+        "{:?} stratum {} leap {} -> {}",
+        ans.kind(),
+        ans.stratum,
+        ans.leap,
+        match matched {
+            Some(0) if after.is_some() => "new snapshot",
+            Some(_) => "old snapshot",
+            None => "UNPUBLISHED state",
+        }
+    )
+}
+
+/// Schedule S2 (observation only): the lock was poisoned by a writer that panicked.
+fn poisoned_lock_observation(keys: &KeyEnv) -> String {
+    use std::sync::{Arc, RwLock};
+    let st = published_states()[1];
+    let info = Arc::new(RwLock::new(super::c16::server_info(&st)));
+    let _ = common::catch(|| {
+        let _g = info.write().unwrap();
+        panic!("writer dies while holding the snapshot lock");
+    });
+    let mut server = super::c16::make_server_shared(Cfg::Open, info.clone(), &keys.server);
+    let r = Req::parse(SCHEDULE_REQUESTS[1]).unwrap();
+    let b = build(&r, keys);
+    match run_handle(&mut server, client_ip(0), &b.bytes, BIG_BUF) {
+        Err(p) => format!("poisoned={}: Server::handle panics ({p})", info.is_poisoned()),
+        Ok(h) => match h.out {
+            Out::Ignore => format!("poisoned={}: request ignored", info.is_poisoned()),
+            Out::Respond(a) => format!("poisoned={}: answered with stratum {} (published stratum {})", info.is_poisoned(), a[1], st.stratum),
+        },
+    }
+}
+
 fn all_states() -> Vec<Sync> {
     let mut v = vec![];
     for (si, stratum) in [1u8, 2, 16].into_iter().enumerate() {
@@ -725,6 +929,18 @@ fn n_symbols(r: &Req) -> usize {
 fn replay(ctx: &Ctx, trace: &str) -> String {
     // "<cfg>;<sync>;k<0|1>;<req code>;cut=<n>"
     let p: Vec<&str> = trace.split(';').collect();
+    if p.first() == Some(&"sched") && p.len() == 5 {
+        // "sched;<before>;<after|->;k<0|1>;<req code>"
+        let (Some(before), Some(req)) = (Sync::parse(p[1]), Req::parse(p[4])) else {
+            return format!("unparseable trace {trace:?}");
+        };
+        let after = if p[2] == "-" { None } else { Sync::parse(p[2]) };
+        let keys = key_env(p[3] == "k1");
+        let findings = Findings::new();
+        let obs = run_schedule(&findings, None, &before, after.as_ref(), &keys, &req);
+        findings.flush(ctx);
+        return obs;
+    }
     if p.len() != 5 {
         return format!("unparseable trace {trace:?}");
     }
@@ -770,7 +986,10 @@ fn check() {
         "grammar G of c16.rs with tagged contents. (a) all 45 synchronisation states {stratum 1,2,16} x {leap none,+1,-1,unknown,unsynchronised} x \
          {root delay/dispersion 0/0, 0.5/0.5, 2^-4/0.5 via linear term} x requests of <=1 symbol, open configuration; (b) 6 states x requests of <=2 symbols; \
          (c) {typical, unsynchronised} x all requests of <=3 symbols, open configuration; (d) configurations {denylist->DENY, require-NTS->DENY, \
-         allowlist-miss->DENY} x all requests (typical state); (e) every truncation of requests of <=2 symbols (open, typical; thorough: <=3). \
+         allowlist-miss->DENY} x all requests (typical state); (e) every truncation of requests of <=2 symbols (open, typical; thorough: <=3); \
+         (f) schedules: 6 non-default snapshots x {v3, v4, v5+refid request, NTS v4, NTS v5+refid request} x {write lock held while the request is handled and released \
+         unchanged, write lock held and the next snapshot stored before release}; the handler thread is started after the lock is taken and the lock is kept until it \
+         returned or was seen blocked for 50 ms; the answer must describe a published snapshot (old or, if stored, new). \
          Distinct & non-trivial = an answered (environment, request, cut).",
     );
     ctx.assume("DENY/RATE/NTS-NAK answers are not required to echo the poll (NTPv5 encodes the kiss code in it, NTPv4 answers 0); their remaining header bytes are compared with the canonical answer of the same kind instead");
@@ -778,6 +997,37 @@ fn check() {
     ctx.assume("root delay/dispersion are compared with a tolerance of one unit of the wire format (2^-15 s short format, 2^-26 s time32)");
     ctx.assume("unique identifiers inside the encrypted part of a request may or may not be echoed (they are identifier fields of the request)");
     let findings = Findings::new();
+    // (f) schedules: the snapshot is write-locked / replaced / poisoned while a request is handled
+    {
+        let keys = key_env(true);
+        let states = published_states();
+        let reqs: Vec<Req> = SCHEDULE_REQUESTS.iter().map(|c| Req::parse(c).expect("schedule request")).collect();
+        // (before, after): S1a = every state without a store, S1b = every state replaced by the next one
+        let mut cases: Vec<(usize, Option<usize>, usize)> = vec![];
+        for a in 0..states.len() {
+            for r in 0..reqs.len() {
+                cases.push((a, None, r));
+                cases.push((a, Some((a + 1) % states.len()), r));
+            }
+        }
+        common::par_for_with(
+            cases.len() as u64,
+            1,
+            || Local::new(&ctx),
+            |loc, i| {
+                let (a, bst, r) = cases[i as usize];
+                let obs = run_schedule(&findings, Some(loc), &states[a], bst.map(|x| &states[x]), &keys, &reqs[r]);
+                loc.distinct(common::hash_of(&("sched", a, bst, r)));
+                if i < 2 {
+                    ctx.sample(format!("schedule S1{} {} -> {obs}", if bst.is_some() { 'b' } else { 'a' }, reqs[r].code()));
+                }
+            },
+        );
+        if ctx.get("schedule_dead_man_expired") > 0 {
+            ctx.cap_hit("a handler thread did not return within 30 s after the snapshot lock was released");
+        }
+        ctx.note("poisoned_snapshot_lock", &poisoned_lock_observation(&keys));
+    }
     let reqs = grammar(thorough, 3);
     ctx.set("grammar_requests", reqs.len() as u64);
     let states = all_states();
